@@ -89,9 +89,14 @@ fn texts(r: &mut Rng, n: u32) -> String {
         "tab\there", "1:2:3", "::", "hash #c", "",
     ];
     let t = pool[r.below(pool.len())];
-    match r.below(12) {
+    match r.below(14) {
         0 => " ".to_string(),
         1 => "  ".to_string(),
+        2 | 3 => {
+            // texts without any blank: the last parameter then needs its ' :' marker only because of its colons
+            let nb = [":-)", "::", ":x", "a:b", ":", "x:", ":żółć"][r.below(7)];
+            format!("{}{}", nb, n)
+        }
         _ => {
             if t.is_empty() {
                 String::new()
